@@ -62,10 +62,29 @@ def classify(fn, case, exp, got):
     else:
         kind = 'different-events'
     if fn['family'].startswith('chain'):
+        ops, cont = fn['ops'], fn['containers']
+        if fn['ctx'] == 'not' and fn['first_chain_len'] > 1 and ops[0] in ('is', 'is not', 'in', 'not in'):
+            # ConstantFolding._handle_NotNode flips the first operator of a cascaded comparison
+            return 'cmp:not-of-chain-starting-with-is-or-in:%s->%s' % ('result' if oe == og == 'ok' else oe, og)
+        if any(o in ('in', 'not in') and c == 'D{' for o, c in zip(ops, cont)):
+            return 'cmp:in-set-display-tested-by-equality:%s:%s->%s' % (kind, oe, og)
+        if kind == 'reordered' and any(o in ('in', 'not in') and c.startswith('D') for o, c in zip(ops, cont)):
+            return 'cmp:in-literal-members-before-needle'
+        if kind in ('missing-events', 'extra-events', 'different-events') and exp[0] == 'exc' and \
+                any(o in ('in', 'not in') and c.startswith('D') for o, c in zip(ops, cont)):
+            return 'cmp:in-literal-members-before-needle:exception-cuts-log'
         i = next((j for j in range(max(len(le), len(lg))) if (le[j] if j < len(le) else None) != (lg[j] if j < len(lg) else None)), None)
         a = c20.ev_name(le[i]) if i is not None and i < len(le) else 'none'
         b = c20.ev_name(lg[i]) if i is not None and i < len(lg) else 'none'
         return 'cmp:%s:%s:%s:%s-vs-%s:%s->%s' % (fn['family'], fn['cls'], kind, a, b, oe, og)
+    if fn['family'] == 'member':
+        nc = needle_class(case.get('a', '()'))
+        if fn['selfref'] and fn['br'] != '{}':
+            return 'cmp:member-identity-shortcut-missing:%s:needle=%s:%s:%s->%s' % (fn['br'], nc, kind, oe, og)
+        if fn['br'] == '{}':
+            return 'cmp:member-set-display-tested-by-equality:needle=%s:%s:%s->%s' % (nc, kind, oe, og)
+    if fn['family'] == 'member-typed' and fn['lit'].startswith("b'") and fn['ct'] != 'bytes' and oe == 'ValueError':
+        return 'cmp:c-int-in-bytes-literal-out-of-range:%s->%s' % (oe, og)
     if fn['family'] == 'switch':
         return 'cmp:switch:%s:%s:%s->%s' % (fn['cls'], kind, oe, og)
     return 'cmp:%s:%s:needle=%s:%s:%s->%s' % (fn['family'], fn['cls'], needle_class(case.get('a', '()')), kind, oe, og)
